@@ -283,6 +283,11 @@ def _check_identifier(s: str | None, optional: bool) -> bool:
     if not s.isidentifier():
         raise ValueError(f"'{s}' is not a valid identifier")
 
+    from pytato.scalar_expr import IDX_LAMBDA_AXIS_INDEX
+    if IDX_LAMBDA_AXIS_INDEX.fullmatch(s):
+        # would be taken for an index in generated code
+        raise ValueError(f"'{s}' is reserved for the indices of index lambdas")
+
     return True
 
 
